@@ -22,7 +22,7 @@ for _f in sorted(glob.glob(os.path.join(os.path.dirname(os.path.abspath(__file__
         PROPS[_k] = _v
 
 # properties whose checks have been validated on the unchanged tree and are registered in MANIFEST.json
-CLAIMED = ["C27","C28","C23","C21","C01","C02","C03","C04","C05","C06","C07","C08","C09","C10","C11","C12","C13","C14","C15","C18","C19","C20","C22","C24","C25","C26","C29","C30","C31","C32","C33","C34","C35","C36","C37","C38","C39","C40","C41","C42","C43"]
+CLAIMED = ["C16","C17","C27","C28","C23","C21","C01","C02","C03","C04","C05","C06","C07","C08","C09","C10","C11","C12","C13","C14","C15","C18","C19","C20","C22","C24","C25","C26","C29","C30","C31","C32","C33","C34","C35","C36","C37","C38","C39","C40","C41","C42","C43"]
 
 # properties deliberately not claimed, with the reason (everything else missing from PROPS is "not built yet")
 NOT_APPLICABLE = {}
